@@ -1,4 +1,5 @@
 import BU.Properties.C17
+import BU.Properties.C17_Float
 #print axioms C17.compactSize_length
 #print axioms C17.decode_encode
 #print axioms C17.compactSize_shortest
@@ -10,3 +11,5 @@ import BU.Properties.C17
 #print axioms C17.prepend_eq_spec
 #print axioms C17.prepend_consistent
 #print axioms C17.to_satoshis_exact
+#print axioms C17.sat_float_within_half
+#print axioms C17.sat_float_exact
